@@ -24,8 +24,8 @@ CHECKS = {
         "require_ops": ["strict.compose"],
     },
     "C02": {
-        "quick": {"gen": [G("MC_C02", "MC_C02_quick.cfg")], "suite": {"tests": "--test lib open_hypergraph", "ops": ["strict.tensor"], "max_nodes": 40, "max_edges": 40}},
-        "thorough": {"gen": [G("MC_C02", "MC_C02_thorough.cfg"), G("MC_C02", "MC_C02_quick.cfg")]},
+        "quick": {"gen": [G("MC_C02", "MC_C02_quick.cfg")], "suite": {"tests": "--test lib open_hypergraph", "ops": ["strict.tensor"], "max_nodes": 40, "max_edges": 40}, "drive": [D("laxcat", 2000, only=["lax.tensor"])]},
+        "thorough": {"gen": [G("MC_C02", "MC_C02_thorough.cfg"), G("MC_C02", "MC_C02_quick.cfg")], "drive": [D("laxcat", 30000, only=["lax.tensor"])]},
         "require_ops": ["strict.tensor", "lax.tensor", "law.tensor_assoc", "lax.tensor3", "hyper.coproduct"],
     },
     "C03": {
@@ -68,13 +68,13 @@ CHECKS = {
         "require_ops": ["ic.new_ff", "ic.flatmap", "ic.map_indexes_ff", "ic.iter_ff", "ic.iter_sf", "ops.iter", "ic.flatmap_sources_ff", "ic.map_values"],
     },
     "C09": {
-        "quick": {"gen": [G("MC_Lax", "MC_C09_quick.cfg"), G("MC_Quot", "MC_Quot_quick.cfg")], "drive": [D("lax", 3000), D("glue", 3000, only=["lax.quotient", "lax.compose"])], "suite": {"tests": "--test lib lax", "ops": ["lax.quotient"], "max_nodes": 12, "max_edges": 12}},
-        "thorough": {"gen": [G("MC_Lax", "MC_C09_thorough.cfg"), G("MC_Lax", "MC_C09_chains.cfg"), G("MC_Quot", "MC_Quot_thorough.cfg")], "drive": [D("lax", 50000)]},
+        "quick": {"gen": [G("MC_Lax", "MC_C09_quick.cfg"), G("MC_Quot", "MC_Quot_quick.cfg")], "drive": [D("laxcat", 2000, only=["lax.quotient"]), D("lax", 3000), D("glue", 3000, only=["lax.quotient", "lax.compose"])], "suite": {"tests": "--test lib lax", "ops": ["lax.quotient"], "max_nodes": 12, "max_edges": 12}},
+        "thorough": {"gen": [G("MC_Lax", "MC_C09_thorough.cfg"), G("MC_Lax", "MC_C09_chains.cfg"), G("MC_Quot", "MC_Quot_thorough.cfg")], "drive": [D("laxcat", 30000, only=["lax.quotient"]), D("lax", 50000)]},
         "require_ops": ["lax.quotient", "lax.h.quotient", "lax.h.coequalizer"],
     },
     "C10": {
-        "quick": {"gen": [G("MC_C10", "MC_C10_quick.cfg")], "drive": [D("glue", 3000, only=["lax.compose"])]},
-        "thorough": {"gen": [G("MC_C10", "MC_C10_thorough.cfg")], "drive": [D("glue", 60000, only=["lax.compose"])]},
+        "quick": {"gen": [G("MC_C10", "MC_C10_quick.cfg")], "drive": [D("laxcat", 3000, only=["lax.compose", "lax.lax_compose", "lax.tensor_assign", "lax.append", "lax.roundtrip_lax", "lax.to_strict", "lax.dagger"]), D("glue", 3000, only=["lax.compose"])]},
+        "thorough": {"gen": [G("MC_C10", "MC_C10_thorough.cfg")], "drive": [D("laxcat", 50000, only=["lax.compose", "lax.lax_compose", "lax.tensor_assign", "lax.append", "lax.roundtrip_lax", "lax.to_strict", "lax.dagger"]), D("glue", 60000, only=["lax.compose"])]},
         "require_ops": ["lax.to_strict", "lax.from_strict", "lax.roundtrip_strict", "lax.roundtrip_lax", "lax.compose", "lax.lax_compose", "lax.tensor_assign", "lax.append", "lax.singleton"],
     },
     "C11": {
@@ -84,8 +84,8 @@ CHECKS = {
                         "lax.delete_edges", "lax.map_nodes", "lax.serde_roundtrip", "lax.h.delete_nodes_witness"],
     },
     "C12": {
-        "quick": {"gen": [G("MC_C12", "MC_C12_quick.cfg"), G("MC_C12", "MC_C12_wide.cfg"), G("MC_C12", "MC_C12_three.cfg")], "drive": [D("strict", 2500, only=["functor.", "laxf.dyn", "laxf.identity"])]},
-        "thorough": {"gen": [G("MC_C12", "MC_C12_thorough.cfg"), G("MC_C12", "MC_C12_thorough_b.cfg"), G("MC_C12", "MC_C12_wide.cfg"), G("MC_C12", "MC_C12_three.cfg")], "drive": [D("strict", 30000, only=["functor.", "laxf.dyn", "laxf.identity"])]},
+        "quick": {"gen": [G("MC_C12", "MC_C12_quick.cfg"), G("MC_C12", "MC_C12_wide.cfg"), G("MC_C12", "MC_C12_three.cfg")], "drive": [D("progs", 1500, only=["functor."]), D("strict", 2500, only=["functor.", "laxf.dyn", "laxf.identity"])]},
+        "thorough": {"gen": [G("MC_C12", "MC_C12_thorough.cfg"), G("MC_C12", "MC_C12_thorough_b.cfg"), G("MC_C12", "MC_C12_wide.cfg"), G("MC_C12", "MC_C12_three.cfg")], "drive": [D("progs", 30000, only=["functor."]), D("strict", 30000, only=["functor.", "laxf.dyn", "laxf.identity"])]},
         "require_ops": ["functor.map_arrow", "laxf.dyn_map_arrow", "functor.laws"],
     },
     "C13": {
@@ -94,8 +94,8 @@ CHECKS = {
         "require_ops": ["laxf.try_define_map_arrow", "laxf.map_arrow_witness"],
     },
     "C14": {
-        "quick": {"gen": [G("MC_C14", "MC_C14_quick.cfg")]},
-        "thorough": {"gen": [G("MC_C14", "MC_C14_thorough.cfg"), G("MC_C14", "MC_C14_thorough_b.cfg")]},
+        "quick": {"gen": [G("MC_C14", "MC_C14_quick.cfg")], "drive": [D("progs", 2500, only=["optic.", "laxf.optic"])]},
+        "thorough": {"gen": [G("MC_C14", "MC_C14_thorough.cfg"), G("MC_C14", "MC_C14_thorough_b.cfg")], "drive": [D("progs", 40000, only=["optic.", "laxf.optic"])]},
         "require_ops": ["optic.map_arrow", "optic.map_adapted", "optic.eval_adapted", "optic.laws", "laxf.optic_map_arrow", "laxf.optic_map_adapted"],
     },
     "C15": {
@@ -114,13 +114,13 @@ CHECKS = {
         "require_ops": ["strict.is_acyclic", "strict.is_monogamous", "hyper.in_degree", "hyper.out_degree", "hyper.is_acyclic"],
     },
     "C18": {
-        "quick": {"gen": [G("MC_C18", "MC_C18_quick.cfg"), G("MC_C18", "MC_C18_mono.cfg"), G("MC_C18", "MC_C18_two.cfg")], "drive": [D("graphs", 4000, only=["arrow."])]},
-        "thorough": {"gen": [G("MC_C18", "MC_C18_thorough.cfg"), G("MC_C18", "MC_C18_mono.cfg"), G("MC_C18", "MC_C18_two.cfg")], "drive": [D("graphs", 60000, only=["arrow."])]},
+        "quick": {"gen": [G("MC_C18", "MC_C18_quick.cfg"), G("MC_C18", "MC_C18_mono.cfg"), G("MC_C18", "MC_C18_two.cfg")], "drive": [D("progs", 3000, only=["arrow."]), D("graphs", 4000, only=["arrow."])]},
+        "thorough": {"gen": [G("MC_C18", "MC_C18_thorough.cfg"), G("MC_C18", "MC_C18_mono.cfg"), G("MC_C18", "MC_C18_two.cfg")], "drive": [D("progs", 50000, only=["arrow."]), D("graphs", 60000, only=["arrow."])]},
         "require_ops": ["arrow.new", "arrow.is_monomorphism", "arrow.is_convex_subgraph"],
     },
     "C19": {
-        "quick": {"gen": [G("MC_C19", "MC_C19_quick.cfg")]},
-        "thorough": {"gen": [G("MC_C19", "MC_C19_thorough.cfg")]},
+        "quick": {"gen": [G("MC_C19", "MC_C19_quick.cfg")], "drive": [D("laxcat", 2000, only=["var.forget"]), D("progs", 3000, only=["var.script"])]},
+        "thorough": {"gen": [G("MC_C19", "MC_C19_thorough.cfg")], "drive": [D("laxcat", 30000, only=["var.forget"]), D("progs", 40000, only=["var.script"])]},
         "require_ops": ["var.script", "var.forget", "var.forget_monogamous", "var.forget_eval"],
     },
     "C20": {
